@@ -411,10 +411,12 @@ func c07(c *Ctx) {
 		fmt.Fprintf(&b, "Definition cases : list sig_case := %s.\n", cListNL(rows[s*shard:hi]))
 		fmt.Fprintf(&b, "Definition R_mismatch := Eval vm_compute in List.map (N.add %d) (idx_where (fun c => negb (sig_agree tree_check_neg c)) cases).\nPrint R_mismatch.\n", s*shard)
 		fmt.Fprintf(&b, "Definition R_violation := Eval vm_compute in List.map (N.add %d) (idx_where (fun c => negb (sig_impl_ok c)) cases).\nPrint R_violation.\n", s*shard)
+		fmt.Fprintf(&b, "Definition R_layout_violation := Eval vm_compute in List.map (N.add %d) (idx_where (fun c => negb (sig_layout_ok c)) cases).\nPrint R_layout_violation.\n", s*shard)
 		o.WriteFile(name, b.String())
 		files = append(files, name)
 		o.ExpectEmpty(name, "R_mismatch", "mismatch", "model of Signature layout / Component algebra vs gotypes (names, offsets, argument size, resolved components, errors)")
 		o.ExpectEmpty(name, "R_violation", "violation", "a resolved component is not an entry of the asmdecl flattening (name/offset/size), or a non-existent index/field yields an address, or a panic")
+		o.ExpectEmpty(name, "R_layout_violation", "violation", "parameter/result names, offsets or the argument size differ from the Go compiler's ABI0 frame layout (gc/amd64 sizes; the layout rules are compared with unsafe.Sizeof/Alignof/Offsetof of the real compiler in this run)")
 	}
 	o.Stage(files...)
 	o.Plan.Rule = "random signatures: 0..4 params, 0..3 results (named/unnamed/blank) over basic types, pointers, strings, slices, arrays (incl. length 0), structs (padding, zero-size and trailing zero-size fields, blank fields), func and interface values, nesting <= 3; three random component paths per value (mostly valid, ~15% with a non-existent index/field/part or a negative index), plus out-of-range tuple indices; non-trivial = at least two values; distinct by signature text"
